@@ -764,6 +764,66 @@ var scenarioTable = map[string]func(s *sc){
 		}
 		s.flush(any)
 	},
+	// all honest: the election of view 1 succeeds among n0, n1, n2 while n3 never timed out, so the NEW_VIEW with a fresh block
+	// reaches a member that is still in view 0 (it must validate the proposal as the proposal of view 1's leader and follow)
+	"new_view_reaches_member_that_has_not_timed_out": func(s *sc) {
+		s.startNodes()
+		s.dropAll(any) // n0's proposal is lost
+		for _, i := range []int{0, 1, 2} {
+			s.timeout(i)
+		}
+		s.flush(kinds("VC"))
+		s.flush(kinds("NV"))
+		s.flush(any)
+	},
+	// the same two views ahead: the election of view 1 fails, n0, n1, n2 go on to view 2, n3 is still in view 0
+	"new_view_two_views_ahead_reaches_member_in_view_0": func(s *sc) {
+		s.startNodes()
+		s.dropAll(any)
+		for round := 0; round < 2; round++ {
+			for _, i := range []int{0, 1, 2} {
+				s.timeout(i)
+			}
+			if round == 0 {
+				s.dropAll(kinds("VC"))
+			}
+		}
+		s.flush(kinds("VC"))
+		s.flush(kinds("NV"))
+		s.flush(any)
+	},
+	// C11/C08: n2 lags at height 1 while n0 and n1 are at height 2.  Its future cache receives the proposal of height 2, n1's
+	// PREPARE and a PREPARE of the Byzantine member n3 for the same block signed for ANOTHER instance.  n2 then closes height 1,
+	// drains the cache and becomes prepared at height 2; nobody commits, everybody times out: the vote of n2 must carry a proof
+	// that the correct leader n1 of view 1 counts.
+	"lagging_member_with_foreign_instance_prepare_in_its_future_cache": func(s *sc) {
+		s.startNodes()
+		s.flush(kinds("PP"))
+		s.flush(kinds("P"))
+		s.flush(func(p pending, k string) bool { return k == "C" && p.to != 2 }) // n0, n1 decide height 1 and start height 2
+		s.flush(kinds("PP"))
+		var b2 *vBlock
+		for _, pp := range s.adv.ppSeen {
+			if vb, ok := pp.Block().(*vBlock); ok && pp.BlockHeight() == 2 {
+				b2 = vb
+			}
+		}
+		if b2 == nil {
+			return
+		}
+		rf := ref(protocol.LEAN_HELIX_PREPARE, 2, 0, b2)
+		rf.inst = clusterInstance + 1
+		s.inject(2, s.adv.mkP(rf, s.cl.ids[3], ""), "p_future_height_other_instance")
+		s.flush(func(p pending, k string) bool { return k == "P" && p.to == 2 })
+		s.flush(func(p pending, k string) bool { return k == "C" && p.to == 2 && msgHeight(p) == 1 }) // n2 closes height 1 and drains
+		s.flush(kinds("P"))
+		s.dropAll(kinds("C"))
+		for _, i := range []int{0, 1, 2} {
+			s.timeout(i)
+		}
+		s.flush(kinds("VC"))
+		s.flush(any)
+	},
 	// lagging node (all honest): n3 receives the traffic of height 2 first (future cache), then height 1; the
 	// commit of height 1 starts round 2, whose drain commits height 2 in the middle (H11 in situ)
 	"lagging_node_drains_cached_height": func(s *sc) {
@@ -791,12 +851,22 @@ var scenarioTable = map[string]func(s *sc){
 	},
 }
 
+func msgHeight(p pending) uint64 {
+	m := interfaces.ToConsensusMessage(p.raw)
+	if m == nil {
+		return 0
+	}
+	return uint64(m.BlockHeight())
+}
+
 func scenarioByz(name string) []int {
 	switch name {
 	case "vote_with_block_but_no_proof", "spliced_proof_for_rejected_block", "future_commit_signed_for_other_instance":
 		return []int{0}
-	case "lagging_node_drains_cached_height":
+	case "lagging_node_drains_cached_height", "new_view_reaches_member_that_has_not_timed_out", "new_view_two_views_ahead_reaches_member_in_view_0":
 		return nil
+	case "lagging_member_with_foreign_instance_prepare_in_its_future_cache":
+		return []int{3}
 	case "fork_via_proof_with_prepares_of_older_view", "heavy_pair_vote_with_unvalidated_block_but_no_proof":
 		return []int{2}
 	}
